@@ -131,12 +131,21 @@ type polyEnv struct {
 	fn     *ssa.Function
 	phiNm  map[*ssa.Phi]string
 	opaque int
+	rename map[string]string // helper parameter name -> name of the caller's argument (facts of a helper read in the caller's terms)
+}
+
+func (e *polyEnv) paramName(p *ssa.Parameter) string {
+	n := normName(p.Name())
+	if r, ok := e.rename[n]; ok && r != "" {
+		return r
+	}
+	return n
 }
 
 func (e *polyEnv) baseName(v ssa.Value) string {
 	switch x := v.(type) {
 	case *ssa.Parameter:
-		return normName(x.Name())
+		return e.paramName(x)
 	case *ssa.UnOp:
 		if f, _ := fieldOfAddr(x.X); f != nil {
 			return normName(f.Name())
@@ -208,7 +217,7 @@ func (e *polyEnv) of(v ssa.Value, depth int) Poly {
 			return e.of(call.Call.Args[0], depth+1).mul(e.of(call.Call.Args[1], depth+1))
 		}
 	case *ssa.Parameter:
-		return polyAtom(normName(x.Name()))
+		return polyAtom(e.paramName(x))
 	case *ssa.Phi:
 		if n, ok := e.phiNm[x]; ok {
 			return polyAtom(n)
@@ -1162,4 +1171,136 @@ func reachesWithoutHeader(from, start, target *ssa.BasicBlock, fn *ssa.Function)
 		return false
 	}
 	return reachableFrom(start, stop)[target]
+}
+
+func init() {
+	reg := registry["C09"]
+	reg.Meta.Rules["C09.10"] = "the chunk iterator visits every chunk the index lists: collectChunkCoordinates appends each listed chunk; a chunk may only be left out on an edge that establishes scaled*chunkSize >= dims (it starts at or beyond the extent) - a boundary chunk that merely ends beyond the extent holds data"
+	reg.Rules = append(reg.Rules, func(c *Ctx, r *Result) {
+		fn := c.Fn(r, "hdf5.Dataset.collectChunkCoordinates")
+		if fn == nil {
+			return
+		}
+		var sink *ssa.Call
+		for _, site := range callsIn(fn) {
+			call, ok := site.(*ssa.Call)
+			if !ok {
+				continue
+			}
+			if b, isB := call.Call.Value.(*ssa.Builtin); isB && b.Name() == "append" && strings.HasPrefix(typeShort(call.Type()), "[][]") {
+				sink = call
+			}
+		}
+		cons := c.Name(fn) + "#every-listed-chunk-visited"
+		if sink == nil {
+			r.Undec("C09.10", cons, c.Pos(fn.Pos()), "the append of a chunk coordinate was not recognised")
+			return
+		}
+		bad, n, found := c.loopSkipsJustified(fn, sink.Block())
+		if !found || n == 0 {
+			r.Undec("C09.10", cons, c.InstrPos(sink), "chunk loop not recognised")
+			return
+		}
+		r.Check(bad == "", "C09.10", cons, firstNonEmpty(bad, c.InstrPos(sink)), "every iteration over the listed chunks appends the chunk's coordinate; a skip needs scaled*chunkSize >= dims on its edge")
+	})
+}
+
+// fieldNamesIn: names of struct fields whose values flow into v (arithmetic, conversions, phis, element loads).
+func fieldNamesIn(v ssa.Value) map[string]bool {
+	out := map[string]bool{}
+	seen := map[ssa.Value]bool{}
+	var walk func(v ssa.Value, d int)
+	walk = func(v ssa.Value, d int) {
+		if v == nil || seen[v] || d > 30 {
+			return
+		}
+		seen[v] = true
+		switch x := v.(type) {
+		case *ssa.BinOp:
+			walk(x.X, d+1)
+			walk(x.Y, d+1)
+		case *ssa.Convert:
+			walk(x.X, d+1)
+		case *ssa.ChangeType:
+			walk(x.X, d+1)
+		case *ssa.Phi:
+			for _, e := range x.Edges {
+				walk(e, d+1)
+			}
+		case *ssa.UnOp:
+			walk(x.X, d+1)
+		case *ssa.IndexAddr:
+			walk(x.X, d+1)
+		case *ssa.Index:
+			walk(x.X, d+1)
+		case *ssa.FieldAddr:
+			if f, _ := fieldOfAddr(x); f != nil {
+				out[f.Name()] = true
+			}
+		case *ssa.Field:
+			if f, _ := fieldOfAddr(x); f != nil {
+				out[f.Name()] = true
+			}
+		case *ssa.Call:
+			for _, a := range x.Call.Args {
+				walk(a, d+1)
+			}
+		case *ssa.Extract:
+			walk(x.Tuple, d+1)
+		}
+	}
+	walk(v, 0)
+	return out
+}
+
+func init() {
+	reg := registry["C09"]
+	reg.Meta.Rules["C09.11"] = "a walk over the blocks of a selection (c < Count[dim]) starts at block 0, or at a skip-ahead position that takes the block length into account: a block that starts before a chunk can still reach into it when Block > 1, so a first block computed from start, stride and the chunk origin alone drops elements"
+	reg.Rules = append(reg.Rules, func(c *Ctx, r *Result) {
+		n := 0
+		for _, fn := range c.LibFuncs() {
+			if shortPkg(fnPkgPath(fn)) != "hdf5" {
+				continue
+			}
+			for _, b := range fn.Blocks {
+				ifi, ok := b.Instrs[len(b.Instrs)-1].(*ssa.If)
+				if !ok {
+					continue
+				}
+				cmp, ok := ifi.Cond.(*ssa.BinOp)
+				if !ok || cmp.Op != token.LSS {
+					continue
+				}
+				phi, ok := cmp.X.(*ssa.Phi)
+				if !ok || phi.Block() != b {
+					continue
+				}
+				if fs := fieldNamesIn(cmp.Y); !fs["Count"] || len(fs) != 1 {
+					continue
+				}
+				// the initial value: the edge that does not come from inside the loop
+				loop := naturalLoop(b)
+				for i, e := range phi.Edges {
+					if loop[b.Preds[i]] && b.Preds[i] != b && b.Dominates(b.Preds[i]) {
+						continue
+					}
+					n++
+					cons := c.Name(fn) + "#selection-block-walk-starts-at-first-relevant-block"
+					if k, isK := constInt(e); isK && k == 0 {
+						r.Hold("C09.11", cons, c.InstrPos(ifi), "the walk visits every block 0..Count-1")
+						continue
+					}
+					fs := fieldNamesIn(e)
+					if fs["Block"] {
+						r.Undec("C09.11", cons, c.InstrPos(ifi), "skip-ahead start that involves the block length: the formula itself is not decided")
+					} else {
+						r.Viol("C09.11", cons, c.InstrPos(ifi), "the walk over the selection's blocks starts at a computed position that does not involve the block length: blocks that begin before the chunk but reach into it are skipped")
+					}
+				}
+			}
+		}
+		if n < 2 {
+			r.Errorf("C09.11: only %d selection block walks found", n)
+		}
+	})
 }
